@@ -67,15 +67,47 @@ def store_facts(ns, store, model, obs, tol_q=F64):
     if lq is not None and getattr(prop, "flow", None) is not None:
         try:
             x_prime, log_j = prop.rescale(smp)
-            cols = [np.zeros(n)]
-            for i in range(len(prop.flow.models)):
-                cols.append(np.asarray(prop.flow.log_prob_ith(x_prime, i), dtype=float) + log_j)
-            ref = np.stack(cols, axis=1)
-            ok_a = bool(ref.shape == lq.shape and _close(lq, ref, F32))
+
+            def table(xp):
+                cols = [np.zeros(n)]
+                for i in range(len(prop.flow.models)):
+                    cols.append(np.asarray(prop.flow.log_prob_ith(xp, i), dtype=float) + log_j)
+                return np.stack(cols, axis=1)
+
+            ref = table(x_prime)
             f["ncols_ref"] = int(ref.shape[1])
+            if ref.shape != lq.shape:
+                ok_a = False
+            else:
+                # float32 accuracy: the flows compute in float32 and the stored x' went through a
+                # sigmoid/logit round trip, so each density is only defined up to its own sensitivity to a
+                # float32-ulp perturbation of x' (large in the tails of an autoregressive flow)
+                xp = np.asarray(x_prime, dtype=float)
+                d = 2e-6 * np.maximum(1.0, np.abs(xp))
+                with np.errstate(invalid="ignore"):
+                    sens = np.maximum(np.abs(table(xp + d) - ref), np.abs(table(xp - d) - ref))
+                sens = np.where(np.isfinite(sens), sens, 0.0)
+                both_inf = np.isinf(lq) & np.isinf(ref) & (np.sign(lq) == np.sign(ref))
+                with np.errstate(invalid="ignore"):
+                    okm = np.abs(lq - ref) <= F32 * np.maximum(1.0, np.maximum(np.abs(lq), np.abs(ref))) + 4.0 * sens
+                okrow = np.all(okm | both_inf, axis=1)
+                # samples closer than eps to a face of the unit hypercube: the forward map clips them
+                # (logit(x, eps)) while they were generated, and their densities stored, at the unclipped x'
+                near = np.zeros(n, dtype=bool)
+                if getattr(prop, "reparameterisation", None) == "logit":
+                    from nessai import config as _cfg
+
+                    eps = float(_cfg.general.eps)
+                    xu = np.stack([smp[nm] for nm in model.names], axis=1).astype(float)
+                    near = np.any((xu < eps) | (xu > 1.0 - eps), axis=1)
+                ok_a = bool(np.all(okrow | near))
+                f["clip_ok"] = bool(np.all(okrow | ~near))
+                f["n_near_boundary"] = int(near.sum())
+                f["n_ill_conditioned"] = int(np.sum(sens > F32))
         except Exception as ex:  # noqa
             f["density_error"] = f"{type(ex).__name__}: {ex}"[:200]
             ok_a = False
+    f.setdefault("clip_ok", True)
     f["densities_ok"] = ok_a if ok_a is not None else (lq is not None and lq.shape[1] == 1 and bool(np.all(lq == 0)))
     # (b) meta-proposal = mixture with weights = fraction drawn from each proposal
     if lq is not None:
